@@ -102,8 +102,10 @@ check("C14", "other",
       "Partial: whole-function symbolic execution of StatefulExecutor::execute_all with a symbolic non-decreasing clock and a "
       "scripted runner: the timeout handed to the runner is min(per-test timeout, time left of the document limit) — absent → 900 s, "
       "0 → unlimited — for documents of <= 2/3 test cases and all durations; a runner timeout surfaces as Err(Timeout(Total|Index(i))) "
-      "with the right kind and the timed-out output; no Timeout error otherwise. The actual abort of a process, the Cram executor "
-      "and the CLI's reporting of later tests as skipped are not claimed.",
+      "with the right kind and the timed-out output; no Timeout error otherwise. SubprocessRunner::run against a recording stub of the "
+      "subprocess crate: the limit handed to the process is exactly the test case's timeout (zero is a limit), none without one; a timed-out "
+      "read is reported as Timeout; standard input = the expression; stderr merged iff combined. The subprocess crate's own enforcement of "
+      "the limit and the Cram executor's total timeout are not claimed (the CLI's reporting of later tests as skipped is C20's).",
       E2_NOTE + " Environment stubs (clock, runner, temp dir, tracing) as listed in the evidence.", E2_TECH, "E2", "DESIGN.md §3 C14")
 check("C15", "other",
       "Partial (executor level): whole-function symbolic execution of StatefulExecutor::execute_all: it returns Err(Skipped(i)) "
@@ -166,7 +168,8 @@ check("C07", "other",
       "template document of <= 4/5 lines (title, blank, comment, command, continuation, expectations with inner/leading/trailing blanks, exit "
       "code; symbolic payload letters) the result is Err or exactly the tests the statement prescribes — command with continuations, "
       "expectations with indentation removed and other whitespace kept, exit code, line number, title where unambiguous, Cram defaults. "
-      "(The finding of this check — output lines before any command were attached to the next command — is fixed in 068e7bb.) Non-ASCII text and long documents are outside.",
+      "(The finding of this check — output lines before any command were attached to the next command — is fixed in 068e7bb.) Lines whose leading whitespace is not the two-space indentation (tabs, blank + tab, wide / no-break space) are unindented text and "
+      "never crash the parser. Other non-ASCII text and long documents are outside.",
       E2_NOTE + " Additionally trusts lib/miniregex.py.", E2_TECH, "E2", "DESIGN.md §3 C07")
 check("C10", "other",
       "Partial: documents whose tests all pass. On the MIR of parse ∘ generate_update for every template Markdown document of <= 4/5 lines (and "
